@@ -73,7 +73,7 @@ P = {
    "§6 C13"),
  "C14": (True,
    'metamorphic testing through the real binary: proptest-generated runs (stdin objects with day-boundary timestamps and time/hash-printing schemas and templates; real repositories) repeated under a matrix of environments; output must be byte-identical to the baseline',
-   '600 (quick) / 6000 (thorough) stdin cases and 100/1200 repositories are each run in a UTC/C baseline and in 15 environment variants (time zones from UTC-11 to UTC+14 incl. POSIX TZ strings and unset TZ, locales, another cwd, 59 unrelated variables, repetition, unrelated variables whose value or name is not valid UTF-8, git's German/French message catalogue - stdout and status only), with RUST_LOG=debug, three concurrent processes, and (git) from inside the repository without -C; stdout, exit status and stderr must not change. Timestamps lie within 14 h of a UTC day boundary so any local-time use flips a printed field. A third of the git cases are really dirty trees switched off by --no-dirty/--clean, repeated 1.1 s later; stdin cases carry random clock-free flags and unset timestamps.',
+   '600 (quick) / 6000 (thorough) stdin cases and 100/1200 repositories are each run in a UTC/C baseline and in 15 environment variants (time zones from UTC-11 to UTC+14 incl. POSIX TZ strings and unset TZ, locales, another cwd, 59 unrelated variables, repetition, unrelated variables whose value or name is not valid UTF-8, the German/French message catalogue of git - stdout and status only), with RUST_LOG=debug, three concurrent processes, and (git) from inside the repository without -C; stdout, exit status and stderr must not change. Timestamps lie within 14 h of a UTC day boundary so any local-time use flips a printed field. A third of the git cases are really dirty trees switched off by --no-dirty/--clean, repeated 1.1 s later; stdin cases carry random clock-free flags and unset timestamps.',
    "Cases are clock-free by construction (the documented wall-clock dev timestamp is excluded here and bracketed in C02/C04/C06). Only the image's locales exist; one machine/libc/rustc.",
    "§6 C14"),
  "C15": (True,
